@@ -429,14 +429,9 @@ theorem Done.valid {I0 : List Item} {st : St} (d : Done G C I0 st) :
     rw [firstSeq_withItems] at hc
     exact h.2 c hc
 
-end Gen
-
-open Gen in
-/-- Every conflict-free output of the generator model validates. -/
-theorem gen_valid {G : Grammar} {o : Gen.Out} (h : gen G = some o) (hW : WfG G)
-    (hc : o.conflicts = false) : Valid G o.aut o.cert := by
-  obtain ⟨C, I0, st, hC, hI, hb, rfl⟩ := gen_eq h
-  have hT := tables_ok hC
+/-- the invariant holds for the initial state graph: state 0 = closure of `[S' → . start, $]` -/
+theorem inv_init (hT : TabOK G C) (hW : WfG G) {I0 : List Item}
+    (hI : closure C [⟨C.seedIdx, 0, G.eoi⟩] = some I0) : Inv G C ⟨#[norm I0], #[I0.reverse], #[]⟩ := by
   obtain ⟨c1, c2, c3⟩ := closure_spec hI
   have hseedOK : ItemOK G C ⟨C.seedIdx, 0, G.eoi⟩ := by
     refine ⟨⟨G.seed, hT.ruleAt_seed, Nat.zero_le _⟩, fun _ => rfl, ?_⟩
@@ -450,31 +445,40 @@ theorem gen_valid {G : Grammar} {o : Gen.Out} (h : gen G = some o) (hW : WfG G)
     cases i with
     | zero => simp at hi; exact ⟨rfl, hi.symm⟩
     | succ n => simp at hi
-  have hinv0 : Inv G C ⟨#[norm I0], #[I0.reverse], #[]⟩ := by
-    refine ⟨rfl, by simp, ?_, ?_, ?_, ?_, ?_, ?_⟩
-    · intro i I L hI' hL it
-      obtain ⟨_, rfl⟩ := single hI'
-      obtain ⟨_, rfl⟩ := single hL
-      rw [List.mem_reverse, mem_norm]
-    · intro i I hI'
-      obtain ⟨_, rfl⟩ := single hI'
-      exact c2.norm
-    · intro i I hI' it hit
-      obtain ⟨_, rfl⟩ := single hI'
-      refine closure_all (fun it hit y hy => ItemOK.succ hT hW hit hy) hI ?_ it (mem_norm.mp hit)
-      intro y hy
-      simp only [List.mem_singleton] at hy
-      rw [hy]; exact hseedOK
-    · intro i L hL
-      obtain ⟨_, rfl⟩ := single hL
-      refine closure_justOrder hT.succLhs hI ?_
-      intro y hy _
-      simp only [List.mem_singleton] at hy
-      rw [hy]
-    · intro s row hr
-      simp at hr
-    · intro s row I hr
-      simp at hr
+  refine ⟨rfl, by simp, ?_, ?_, ?_, ?_, ?_, ?_⟩
+  · intro i I L hI' hL it
+    obtain ⟨_, rfl⟩ := single hI'
+    obtain ⟨_, rfl⟩ := single hL
+    rw [List.mem_reverse, mem_norm]
+  · intro i I hI'
+    obtain ⟨_, rfl⟩ := single hI'
+    exact c2.norm
+  · intro i I hI' it hit
+    obtain ⟨_, rfl⟩ := single hI'
+    refine closure_all (fun it hit y hy => ItemOK.succ hT hW hit hy) hI ?_ it (mem_norm.mp hit)
+    intro y hy
+    simp only [List.mem_singleton] at hy
+    rw [hy]; exact hseedOK
+  · intro i L hL
+    obtain ⟨_, rfl⟩ := single hL
+    refine closure_justOrder hT.succLhs hI ?_
+    intro y hy _
+    simp only [List.mem_singleton] at hy
+    rw [hy]
+  · intro s row hr
+    simp at hr
+  · intro s row I hr
+    simp at hr
+
+end Gen
+
+open Gen in
+/-- Every conflict-free output of the generator model validates. -/
+theorem gen_valid {G : Grammar} {o : Gen.Out} (h : gen G = some o) (hW : WfG G)
+    (hc : o.conflicts = false) : Valid G o.aut o.cert := by
+  obtain ⟨C, I0, st, hC, hI, hb, rfl⟩ := gen_eq h
+  have hT := tables_ok hC
+  have hinv0 := inv_init hT hW hI
   obtain ⟨b1, b2, _, b4⟩ := bfs_inv hT hW _ 0 _ st hb hinv0 rfl
   have d : Done G C I0 st := by
     refine ⟨hT, hW, b1, b2, b4 0 _ (by simp), hI, ?_⟩
